@@ -14,8 +14,7 @@ from tiv.sem import trace, expand, cx, econds, specialize
 RULES = {
     "MEMO": "memo safety (shared, rules/common.py): a memoised function in this property's files (or called from them) is a function of its "
             "arguments only (no terminal/ambient/receiver state outside the key) and no caller mutates its result in place",
-    "R1": "rows() announces what render() produces: for a flow widget both derive the height from the same inputs by the same decision "
-          "(FIT -> _valid_size(width)[1]; otherwise the ORIGINAL size if it fits inside the FIT size on both axes, else the FIT size)",
+    "R1": 'rows() announces what render() produces: the traced expression rows() returns equals, case by case (FIT / AUTO), the height component of the size render() gives the image in a flow layout (FIT: set_size(size[0]); AUTO: ORIGINAL if it fits into the FIT size else FIT); the canvas records the size it was rendered with',
     "R2": "row assembly: in the text branch of UrwidImageCanvas.content each image row is [left padding, recovered first colour, image cells, "
           "colour reset, right padding, last-row workaround]; the first colour is recovered by scanning backwards from the cut and keeps the cell's "
           "whole colour prefix (up to its LAST 'm'); the untrimmed fast path is taken only when both horizontal trims are zero",
